@@ -104,6 +104,9 @@ type RWMutex struct {
 	real    sync.RWMutex
 	writer  bool
 	readers int
+	// pending writers block new readers, as in the real RWMutex (this is what
+	// makes a recursive RLock deadlock when a writer arrives in between)
+	writersWaiting int
 }
 
 //go:norace
@@ -117,7 +120,9 @@ func (m *RWMutex) Lock() {
 	}
 	verifrt.Y(siteMutexLock)
 	for m.writer || m.readers > 0 {
+		m.writersWaiting++
 		verifrt.Block(unsafe.Pointer(m), siteMutexLock)
+		m.writersWaiting--
 	}
 	m.writer = true
 	m.real.Lock()
@@ -151,7 +156,7 @@ func (m *RWMutex) RLock() {
 		return
 	}
 	verifrt.Y(siteRLock)
-	for m.writer {
+	for m.writer || m.writersWaiting > 0 {
 		verifrt.Block(unsafe.Pointer(m), siteRLock)
 	}
 	m.readers++
